@@ -704,7 +704,7 @@ fn eval_c01(req: &str) -> ImplOut {
 }
 
 fn gen_c01(ctx: &Ctx, sink: &mut dyn FnMut(String)) {
-    emit_seeds(ctx, "c01", (300, 25), (3000, 60), &[0, 5, 10], sink);
+    emit_seeds(ctx, "c01", (900, 25), (3000, 60), &[0, 5, 10], sink);
 }
 
 pub fn c01_oracle() -> Suite {
@@ -863,7 +863,7 @@ fn eval_c02(req: &str) -> ImplOut {
 }
 
 fn gen_c02(ctx: &Ctx, sink: &mut dyn FnMut(String)) {
-    emit_seeds(ctx, "c02", (300, 25), (3000, 60), &[0, 5, 10], sink);
+    emit_seeds(ctx, "c02", (1200, 25), (3000, 60), &[0, 5, 10], sink);
 }
 
 pub fn c02_oracle() -> Suite {
@@ -932,7 +932,7 @@ fn eval_c27(req: &str) -> ImplOut {
 }
 
 fn gen_c27(ctx: &Ctx, sink: &mut dyn FnMut(String)) {
-    emit_seeds(ctx, "c27", (300, 30), (3000, 80), &[10, 20, 0], sink);
+    emit_seeds(ctx, "c27", (600, 30), (3000, 80), &[10, 20, 0], sink);
 }
 
 pub fn c27_oracle() -> Suite {
@@ -1101,7 +1101,7 @@ fn eval_c03(req: &str) -> ImplOut {
 }
 
 fn gen_c03(ctx: &Ctx, sink: &mut dyn FnMut(String)) {
-    emit_seeds(ctx, "c03", (300, 25), (3000, 60), &[5, 15, 0], sink);
+    emit_seeds(ctx, "c03", (900, 25), (3000, 60), &[5, 15, 0], sink);
 }
 
 pub fn c03_oracle() -> Suite {
